@@ -7,6 +7,8 @@ package c17
 
 import (
 	"fmt"
+	lunarcontext "lunar/engine/streams/lunar-context"
+	publictypes "lunar/engine/streams/public-types"
 	"os"
 	"sort"
 	"strings"
@@ -76,6 +78,9 @@ type seqRef struct {
 	calls        int
 	// how the previous logical call ended: "" | "failed" | "ok-after-N-retries"
 	prevEnd string
+	// a call of this sequence ended successfully after at least one retry and no call has
+	// been reported failed since (flows mode keeps that call's counter: known finding)
+	leaked bool
 }
 
 type model struct {
@@ -86,6 +91,8 @@ type model struct {
 	stream *streams.Stream
 	root   string
 	ref    [2]seqRef
+	// flow context of the retry flow (per-sequence counters of the Retry processor)
+	flowCtx publictypes.ContextI
 }
 
 func flowYAML(c cfg) string {
@@ -215,6 +222,9 @@ func (m *model) Apply(ei int) string {
 		}
 	case "flows":
 		v := eng.OnResponse(m.stream, eng.Resp{ID: id, Seq: name, Method: "GET", URL: "h.com/a", Status: e.status})
+		if c := eng.LastContext; c != nil && c.GetFlowContext() != nil {
+			m.flowCtx = c.GetFlowContext()
+		}
 		if v.Err != "" {
 			return "ERROR " + v.Err
 		}
@@ -234,6 +244,7 @@ func (m *model) Apply(ei int) string {
 		rs.prevEnd = "ok-after-0-retries"
 		if rs.retriesAsked > 0 {
 			rs.prevEnd = "ok-after-retries"
+			rs.leaked = true // flows mode keeps the counter of this call (known finding)
 		}
 		return ""
 	}
@@ -247,7 +258,7 @@ func (m *model) Apply(ei int) string {
 	// failure reported: legal only when the configured retries are used up (or the state expired)
 	if rs.retriesAsked < m.c.Attempts && !stale {
 		clause := "EARLY-FAILURE"
-		if m.c.Mode == "flows" && rs.prevEnd == "ok-after-retries" {
+		if m.c.Mode == "flows" && rs.leaked {
 			// the Retry processor never sees the out-of-condition response that ended the
 			// previous call (the Filter routes it away), so its counter is kept
 			clause = "EARLY-FAILURE:flows:counter-kept-after-successful-retry"
@@ -255,6 +266,7 @@ func (m *model) Apply(ei int) string {
 		return fmt.Sprintf("%s sequence %s (call %d, previous call ended %q) was reported failed after %d of %d retries", clause, name, rs.calls, rs.prevEnd, rs.retriesAsked, m.c.Attempts)
 	}
 	rs.prevEnd = "failed"
+	rs.leaked = false // exhaustion removes the counter
 	return ""
 }
 
@@ -273,10 +285,18 @@ func (m *model) Key() string {
 			}
 		}
 		firstCall := r.calls <= 1
-		p = append(p, fmt.Sprintf("%d/%d/%v/%s/%v/%s", r.attempt, r.retriesAsked, r.inCall, age, firstCall, r.prevEnd))
+		p = append(p, fmt.Sprintf("%d/%d/%v/%s/%v/%s/%v", r.attempt, r.retriesAsked, r.inCall, age, firstCall, r.prevEnd, r.leaked))
 	}
 	sort.Strings(p[:0])
-	return strings.Join(p, "|")
+	// implementation state: states are merged only when the remedy's / processor's own
+	// per-sequence bookkeeping agrees as well
+	impl := ""
+	if m.plugin != nil {
+		impl = remedies.VerifRetryState(m.plugin, time.Now())
+	} else if m.flowCtx != nil {
+		impl = lunarcontext.VerifDumpContext(m.flowCtx)
+	}
+	return strings.Join(p, "|") + "||" + impl
 }
 
 func configs() []cfg {
